@@ -49,6 +49,17 @@ fn decode(tape: &[u32]) -> Case {
         let d = if t.bool() { Some(t.usize(50, 950) as u32) } else { None };
         spec.layers.push(LayerSpec::Dense { out: t.usize(1, 6), act: gen_act(&mut t, &o), bias: t.bool(), dropout: d });
     }
+    // a quarter of the networks end in a soft-max layer (arg-max accuracy rule), half of those with dropout on it
+    if t.chance(1, 4) {
+        let with_dropout = t.bool();
+        let rate = t.usize(50, 950) as u32;
+        if let Some(LayerSpec::Dense { act, dropout, .. }) = spec.layers.last_mut() {
+            *act = ActK::Softmax;
+            if with_dropout {
+                *dropout = Some(rate);
+            }
+        }
+    }
     let epochs = t.usize(1, 4) as i32;
     let with_val = !t.chance(1, 5);
     // early stopping fires in part of the cases (tolerance 1 always stops after epoch 2)
@@ -106,6 +117,9 @@ fn check(case: &Case, ev: &mut CaseEv) -> CheckResult {
     let twin_spec = no_dropout(spec);
     let ndense = spec.layers.iter().filter(|l| matches!(l, LayerSpec::Dense { .. })).count();
     ev.class(format!("dense layers:{}", ndense.min(3)));
+    if let Some(LayerSpec::Dense { act: ActK::Softmax, dropout, .. }) = spec.layers.last() {
+        ev.class(if dropout.is_some() { "soft-max output with dropout" } else { "soft-max output" });
+    }
     let positions: Vec<usize> = spec.layers.iter().enumerate().filter(|(_, l)| l.has_dropout()).map(|(i, _)| i).collect();
     for p in &positions {
         ev.class(if *p == 0 { "dropout:first" } else if *p == spec.layers.len() - 1 { "dropout:last" } else { "dropout:middle" });
@@ -219,7 +233,7 @@ impl Prop for C09 {
         Some(2)
     }
     fn rule(&self) -> String {
-        "tape-decoded layer sequence (1-4 generated layers of any kind incl. feedback blocks, ending in a dense layer, plus 0-2 further dense layers) with dropout (rate 0.05..0.95) on any subset incl. layers inside blocks (at least one), 1-4 epochs, with (4/5) or without validation data, early-stopping tolerance in {1000, 1, 2, 3} (so early stops occur), 1-6 training and 1-5 validation samples (one case in twelve: 65-150 validation samples), batch 1-4, SGD lr 1/32, MSE. Oracle: the dropout-free twin built from the same specification: (1) after learn() returns, copy the weights into the twin: predict and validate agree bitwise; (2) for e = 1..E a fresh network trained exactly e epochs reports as its last validation loss / accuracy what the twin's validate gives on those weights (bitwise); (3) a never-trained network predicts like the twin. Non-trivial: some dropout mask (recomputed with the public generator, seed 12345) zeroes >= 1 element, and validation data present. Distinct = (architecture with dropout pattern, epochs, validation y/n).".into()
+        "tape-decoded layer sequence (1-4 generated layers of any kind incl. feedback blocks, ending in a dense layer, plus 0-2 further dense layers; a quarter of the networks end in a soft-max layer, half of those with dropout on it) with dropout (rate 0.05..0.95) on any subset incl. layers inside blocks (at least one), 1-4 epochs, with (4/5) or without validation data, early-stopping tolerance in {1000, 1, 2, 3} (so early stops occur), 1-6 training and 1-5 validation samples (one case in twelve: 65-150 validation samples), batch 1-4, SGD lr 1/32, MSE. Oracle: the dropout-free twin built from the same specification: (1) after learn() returns, copy the weights into the twin: predict and validate agree bitwise; (2) for e = 1..E a fresh network trained exactly e epochs reports as its last validation loss / accuracy what the twin's validate gives on those weights (bitwise); (3) a never-trained network predicts like the twin. Non-trivial: some dropout mask (recomputed with the public generator, seed 12345) zeroes >= 1 element, and validation data present. Distinct = (architecture with dropout pattern, epochs, validation y/n).".into()
     }
     fn run_case(&self, tape: &[u32], ev: &mut CaseEv) -> CheckResult {
         check(&decode(tape), ev)
